@@ -2,6 +2,8 @@ import Splipy.Lemmas.C13Arc
 import Splipy.Lemmas.C13Place
 import Splipy.Lemmas.C13Spline
 import Splipy.Lemmas.C13Real
+import Splipy.Lemmas.C13Eval
+import Splipy.Lemmas.C13Lift
 
 /-!
 # Property C13 — primitive factories produce the exact shapes they name, placed as requested
@@ -260,9 +262,9 @@ theorem C13_arc_spline (r cd sd theta : K) (n : ℕ) (hn : 0 < n) (hθ : 0 < the
 `(r1, r2, 1)` — what `ellipse` does to the unit circle net, and hence to every evaluated point —
 gives a point of the ellipse `(x/r1)² + (y/r2)² = 1`. -/
 theorem C13_ellipse (X Y W r1 r2 : K) (h : X ^ 2 + Y ^ 2 = W ^ 2) (hW : W ≠ 0) (h1 : r1 ≠ 0) (h2 : r2 ≠ 0) :
-    scalePt 2 (Obj.padScale [r1, r2, 1]) [X, Y, W] = [X * r1, Y * r2, W] ∧
+    scalePt 2 (Fac.Obj.padScale [r1, r2, 1]) [X, Y, W] = [X * r1, Y * r2, W] ∧
     (X * r1 / W / r1) ^ 2 + (Y * r2 / W / r2) ^ 2 = 1 := by
-  refine ⟨by simp [scalePt, Obj.padScale], ?_⟩
+  refine ⟨by simp [scalePt, Fac.Obj.padScale], ?_⟩
   field_simp
   linear_combination h
 
@@ -392,7 +394,7 @@ theorem C13_model_nets (k : Consts K) (center normal xaxis : List K) (a : NAux K
   · intro r hr
     simp [circle, unitCircle, not_le.mpr hr, bind, Except.bind, pure, Except.pure]
   · intro o hdim hn hc hlen
-    simp [place, flipAndMove, Obj.rotateZ, Obj.rotateY, Obj.translate, Obj.setDimension, Obj.mapPts, hdim, hn, hc,
+    simp [place, flipAndMove, Fac.Obj.rotateZ, Fac.Obj.rotateY, Fac.Obj.translate, Fac.Obj.setDimension, Fac.Obj.mapPts, hdim, hn, hc,
       hlen, bind, Except.bind, pure, Except.pure]
 
 /-- **Evaluated points of a placed circle / arc.**  `placePt` is what `place` does to one homogeneous
@@ -581,7 +583,7 @@ theorem C13_extrude_section (o : Fac.Obj K) (a b c : K) :
         lerpPt v [X, Y, Z] (translatePt false 3 [a, b, c] [X, Y, Z])
           = [X + v * a, Y + v * b, Z + v * c]) := by
   refine ⟨?_, ?_, ?_⟩
-  · simp [extrude, Obj.translate, Obj.setDimension, Obj.mapPts, bind, Except.bind, pure, Except.pure]
+  · simp [extrude, Fac.Obj.translate, Fac.Obj.setDimension, Fac.Obj.mapPts, bind, Except.bind, pure, Except.pure]
   · intro X Y Z H v
     refine ⟨by simp [translatePt, weightOf], ?_⟩
     simp only [translatePt, weightOf, lerpPt]
@@ -620,10 +622,10 @@ theorem C13_linear :
   refine ⟨fun a b => ⟨rfl, rfl⟩, fun pts t => ⟨rfl, rfl, ?_⟩, ?_, ?_, ?_⟩
   · simp [polygonT, curveOf]
   · intro sx sy lx ly
-    simp [square, unitSquare, Obj.scale, Obj.translate, Obj.mapPts, Obj.padScale, scalePt,
+    simp [square, unitSquare, Fac.Obj.scale, Fac.Obj.translate, Fac.Obj.mapPts, Fac.Obj.padScale, scalePt,
       translatePt, weightOf, pure, Except.pure]
   · intro sx sy sz lx ly lz
-    simp [cube, unitCube, Obj.scale, Obj.translate, Obj.mapPts, Obj.padScale, scalePt,
+    simp [cube, unitCube, Fac.Obj.scale, Fac.Obj.translate, Fac.Obj.mapPts, Fac.Obj.padScale, scalePt,
       translatePt, weightOf, pure, Except.pure]
   · intro r c s h
     linear_combination r ^ 2 * h
@@ -819,3 +821,550 @@ theorem C13_three_points_through_x1 (r θ c1 s1 : ℝ) (n : ℕ) (hn : 0 < n) (h
   obtain ⟨φ, hφ0, hφ1, hc, hs⟩ := exists_angle_between θ c1 s1 hθ0 hθ2 h1 hb1 hb2
   rw [← hc, ← hs]
   exact arc_attains_real r θ φ n hn hθ0 hdt hφ0 hφ1
+
+/-! ## evaluated points, for every parameter -/
+
+/-- **`circle_segment`: every evaluated point is on the circle.**  For `θ > 0`, `n ≥ 1` spans,
+`cos dt > 0`: for *every* parameter `t` of the domain (`[0,θ)` with the right-continuous, `(0,θ]`
+with the left-continuous B-splines) the homogeneous curve `(X, Y, W)(t) = Σ_i cp[i]·B_{i,2}(t)` of the
+factory's basis and net has `W(t) > 0`, lies on the cone `X² + Y² = r²W²`, and the evaluated
+(NURBS quotient) point satisfies `(X/W)² + (Y/W)² = r²`. -/
+theorem C13_eval_arc (r cd sd theta : K) (n : ℕ) (hn : 0 < n) (hθ : 0 < theta)
+    (hd : cd ^ 2 + sd ^ 2 = 1) (hcd : 0 < cd) (s : Side) (t : K) (ht : s.mem 0 theta t) :
+    let τ := ({ order := 3, knots := (arcKnots theta n).toArray, periodic := -1 } : Basis K).kn
+    let X := splineVal s τ 2 (2 * n + 1) (netComp (arcNet r cd sd n) 0) t
+    let Y := splineVal s τ 2 (2 * n + 1) (netComp (arcNet r cd sd n) 1) t
+    let W := splineVal s τ 2 (2 * n + 1) (netComp (arcNet r cd sd n) 2) t
+    0 < W ∧ X ^ 2 + Y ^ 2 = r ^ 2 * W ^ 2 ∧ (X / W) ^ 2 + (Y / W) ^ 2 = r ^ 2 := by
+  intro τ X Y W
+  obtain ⟨j, hj, hmem⟩ := arc_span_of_mem s theta n hn hθ t ht
+  obtain ⟨_, _, _, hcone⟩ := C13_arc_spline r cd sd theta n hn hθ hd s j hj t hmem
+  have hτ := arcKnotFn_mono theta n hn hθ
+  have hW : 0 < W := by
+    have hk : W = splineVal s (arcKnotFn theta n) 2 (2 * n + 1) (netComp (arcNet r cd sd n) 2) t :=
+      splineVal_congr_knots s _ _ 2 (2 * n + 1) _ t (fun k hk => kn_arc theta n k (by omega))
+    rw [hk]
+    have a1 : arcKnotFn theta n (2 * j + 2) = (j : K) / n * theta := by
+      have : min n ((2 * j + 2 - 1) / 2) = j := by omega
+      unfold arcKnotFn; rw [this]
+    have a2 : arcKnotFn theta n (2 * j + 2 + 1) = ((j + 1 : ℕ) : K) / n * theta := by
+      have : min n ((2 * j + 2 + 1 - 1) / 2) = j + 1 := by omega
+      unfold arcKnotFn; rw [this]
+    apply splineVal_pos s (arcKnotFn theta n) hτ 2 (2 * j + 2) (2 * n + 1) _ t (by omega) (by omega)
+      (by rw [a1, a2]; exact hmem)
+    intro i hi
+    rw [(netComp_arc r cd sd n i hi).2.2]
+    unfold arcW; split <;> [exact hcd; exact one_pos]
+  refine ⟨hW, hcone, ?_⟩
+  have hW0 : W ≠ 0 := ne_of_gt hW
+  field_simp
+  linear_combination hcone
+
+
+/-- the hypotheses of `C13_eval_arc` are satisfiable. -/
+example : ∃ (cd sd theta : ℚ) (n : ℕ) (t : ℚ), 0 < n ∧ 0 < theta ∧ cd ^ 2 + sd ^ 2 = 1 ∧ 0 < cd ∧
+    Side.right.mem 0 theta t := ⟨4 / 5, 3 / 5, 1, 1, 1 / 2, by norm_num, by norm_num, by norm_num, by norm_num,
+      by constructor <;> norm_num⟩
+
+/-- **`circle(type='p2C0')`: every evaluated point is on the unit circle** (every `t ∈ [0, 2π)`
+resp. `(0, 2π]`; `w² = 1/2`, `w > 0`); `circle` then scales by `r` and places
+(`C13_eval_placed_curve`). -/
+theorem C13_eval_circle_p2C0 (pi w : K) (hpi : 0 < pi) (hw : w ^ 2 = 1 / 2) (hw0 : 0 < w)
+    (s : Side) (t : K) (ht : s.mem 0 (2 * pi) t) :
+    let τ := ({ order := 3, knots := (circleKnotsP2 pi).toArray, periodic := 0 } : Basis K).kn
+    let X := splineVal s τ 2 9 (netComp (circleNetP2 w) 0) t
+    let Y := splineVal s τ 2 9 (netComp (circleNetP2 w) 1) t
+    let W := splineVal s τ 2 9 (netComp (circleNetP2 w) 2) t
+    0 < W ∧ X ^ 2 + Y ^ 2 = W ^ 2 ∧ (X / W) ^ 2 + (Y / W) ^ 2 = 1 := by
+  intro τ X Y W
+  obtain ⟨j, hj, hmem⟩ := p2_span_of_mem s pi hpi t ht
+  have hcone := C13_circle_p2C0_spline pi w hpi hw s j hj t hmem
+  have hh : (0 : K) < pi / 2 := by positivity
+  have hτ := p2Knot_mono (pi / 2) hh
+  have hW : 0 < W := by
+    have hk : W = splineVal s (p2Knot (pi / 2)) 2 9 (netComp (circleNetP2 w) 2) t :=
+      splineVal_congr_knots s _ _ 2 9 _ t (fun k hk => kn_circleP2 pi k (by omega))
+    rw [hk]
+    apply splineVal_pos s (p2Knot (pi / 2)) hτ 2 (2 * j + 2) 9 _ t (by omega) (by omega)
+    · have a : p2Knot (pi / 2) (2 * j + 2) = (j : K) * (pi / 2) := by
+        interval_cases j <;> simp [p2Knot] <;> ring
+      have b : p2Knot (pi / 2) (2 * j + 2 + 1) = (j : K) * (pi / 2) + pi / 2 := by
+        interval_cases j <;> simp [p2Knot] <;> ring
+      rw [a, b]; exact hmem
+    · intro i hi
+      interval_cases i <;> simp [netComp, circleNetP2] <;> exact hw0
+  refine ⟨hW, hcone, ?_⟩
+  have hW0 : W ≠ 0 := ne_of_gt hW
+  field_simp
+  linear_combination hcone
+
+
+/-- **`circle(type='p4C1')`: every evaluated point is on the unit circle** (`s2² = 2`, `s2 > 0`). -/
+theorem C13_eval_circle_p4C1 (pi s2 : K) (hpi : 0 < pi) (h2 : s2 ^ 2 = 2) (hs0 : 0 < s2)
+    (s : Side) (t : K) (ht : s.mem 0 (2 * pi) t) :
+    let τ := ({ order := 5, knots := (circleKnotsP4 pi).toArray, periodic := 1 } : Basis K).kn
+    let X := splineVal s τ 4 14 (netComp (circleNetP4 s2) 0) t
+    let Y := splineVal s τ 4 14 (netComp (circleNetP4 s2) 1) t
+    let W := splineVal s τ 4 14 (netComp (circleNetP4 s2) 2) t
+    0 < W ∧ X ^ 2 + Y ^ 2 = W ^ 2 ∧ (X / W) ^ 2 + (Y / W) ^ 2 = 1 := by
+  intro τ X Y W
+  obtain ⟨j, hj, hmem⟩ := p4_span_of_mem s pi hpi t ht
+  have hcone := C13_circle_p4C1 pi s2 hpi h2 s j hj t hmem
+  have hh : (0 : K) < pi / 2 := by positivity
+  have hτ := p4Knot_mono (pi / 2) hh
+  have hW : 0 < W := by
+    have hk : W = splineVal s (p4Knot (pi / 2)) 4 14 (netComp (circleNetP4 s2) 2) t :=
+      splineVal_congr_knots s _ _ 4 14 _ t (fun k hk => kn_circleP4 pi k (by omega))
+    rw [hk]
+    apply splineVal_pos s (p4Knot (pi / 2)) hτ 4 (3 * j + 4) 14 _ t (by omega) (by omega)
+    · have a : p4Knot (pi / 2) (3 * j + 4) = (j : K) * (pi / 2) := by
+        interval_cases j <;> simp [p4Knot] <;> ring
+      have b : p4Knot (pi / 2) (3 * j + 4 + 1) = (j : K) * (pi / 2) + pi / 2 := by
+        interval_cases j <;> simp [p4Knot] <;> ring
+      rw [a, b]; exact hmem
+    · intro i hi
+      interval_cases i <;> simp [netComp, circleNetP4] <;> positivity
+  refine ⟨hW, hcone, ?_⟩
+  have hW0 : W ≠ 0 := ne_of_gt hW
+  field_simp
+  linear_combination hcone
+
+/-- **Placed curves: circle, arc, ellipse at every parameter.**  For a planar rational net
+(points `[X, Y, W]`), *arbitrary* weights `β` (the values of the basis functions at a parameter) and
+placement data obeying the relations of `C13_placement`:
+1. the weighted combination of the placed control points (`place`, `C13_model_nets` part 3) is
+   `X·e_x' + Y·e_y' + W·c` where `(X, Y, W)` is the combination of the unplaced ones and
+   `e_x', e_y'` (the images of `e_x`, `e_y`) are orthonormal and orthogonal to `n`;
+2. if the unplaced point is on the cone `X² + Y² = r²W²` (`C13_eval_arc`, `C13_eval_circle_*`,
+   scaled by `r`) the evaluated placed point satisfies `‖p − c‖² = r²`, `(p − c)·n = 0`;
+3. if it is on `(X/r1)² + (Y/r2)² = W²` (the `ellipse` net: unit circle scaled by `(r1, r2, 1)`) the
+   placed point satisfies the ellipse equation in the frame `(e_x', e_y')` and lies in the plane. -/
+theorem C13_eval_placed_curve (net : List (Pt K)) (n : ℕ) (β : ℕ → K) (h3 : Is3 net n)
+    (nx ny nz ρ N ct st cp sp ca sa c1 c2 c3 : K)
+    (hρ : ρ ^ 2 = nx ^ 2 + ny ^ 2) (hNN : N ^ 2 = ρ ^ 2 + nz ^ 2) (hN : N ≠ 0)
+    (hθ : ρ ≠ 0 → ct * ρ = nx ∧ st * ρ = ny) (hθ1 : ct ^ 2 + st ^ 2 = 1)
+    (hcp : cp * N = nz) (hsp : sp * N = ρ) (ha : ca ^ 2 + sa ^ 2 = 1) :
+    let X := wS n β (comp net 0)
+    let Y := wS n β (comp net 1)
+    let W := wS n β (comp net 2)
+    let net' := net.map (placePt ca sa ct st cp sp [c1, c2, c3])
+    let x := wS n β (comp net' 0)
+    let y := wS n β (comp net' 1)
+    let z := wS n β (comp net' 2)
+    let w := wS n β (comp net' 3)
+    -- images of e_x, e_y under the rotation part
+    let ex : K × K × K := (ca * cp * ct - sa * st, ca * cp * st + sa * ct, -(ca * sp))
+    let ey : K × K × K := (-(sa * cp * ct) - ca * st, -(sa * cp * st) + ca * ct, sa * sp)
+    w = W ∧
+    x = X * ex.1 + Y * ey.1 + c1 * W ∧ y = X * ex.2.1 + Y * ey.2.1 + c2 * W ∧
+    z = X * ex.2.2 + Y * ey.2.2 + c3 * W ∧
+    (ex.1 ^ 2 + ex.2.1 ^ 2 + ex.2.2 ^ 2 = 1 ∧ ey.1 ^ 2 + ey.2.1 ^ 2 + ey.2.2 ^ 2 = 1 ∧
+      ex.1 * ey.1 + ex.2.1 * ey.2.1 + ex.2.2 * ey.2.2 = 0 ∧
+      ex.1 * nx + ex.2.1 * ny + ex.2.2 * nz = 0 ∧ ey.1 * nx + ey.2.1 * ny + ey.2.2 * nz = 0) ∧
+    (∀ r : K, X ^ 2 + Y ^ 2 = r ^ 2 * W ^ 2 → W ≠ 0 →
+      (x / w - c1) ^ 2 + (y / w - c2) ^ 2 + (z / w - c3) ^ 2 = r ^ 2 ∧
+      (x / w - c1) * nx + (y / w - c2) * ny + (z / w - c3) * nz = 0) ∧
+    (∀ r1 r2 : K, (X / r1) ^ 2 + (Y / r2) ^ 2 = W ^ 2 → W ≠ 0 → r1 ≠ 0 → r2 ≠ 0 →
+      (((x / w - c1) * ex.1 + (y / w - c2) * ex.2.1 + (z / w - c3) * ex.2.2) / r1) ^ 2
+      + (((x / w - c1) * ey.1 + (y / w - c2) * ey.2.1 + (z / w - c3) * ey.2.2) / r2) ^ 2 = 1 ∧
+      (x / w - c1) * nx + (y / w - c2) * ny + (z / w - c3) * nz = 0) := by
+  intro X Y W net' x y z w ex ey
+  have hpl := wS_placePt net n β h3 ca sa ct st cp sp c1 c2 c3
+  have hp1 : cp ^ 2 + sp ^ 2 = 1 := by
+    have : (cp ^ 2 + sp ^ 2) * N ^ 2 = N ^ 2 := by
+      linear_combination (cp * N + nz) * hcp + (sp * N + ρ) * hsp - hNN
+    exact mul_right_cancel₀ (pow_ne_zero 2 hN) (by rw [this, one_mul])
+  have hdec : placePt ca sa ct st cp sp [c1, c2, c3] [X, Y, W]
+      = [X * ex.1 + Y * ey.1 + c1 * W, X * ex.2.1 + Y * ey.2.1 + c2 * W,
+         X * ex.2.2 + Y * ey.2.2 + c3 * W, W] := by
+    simp only [placePt, setDimPt, rotZPt_cons, translatePt, weightOf, ex, ey]
+    simp
+    refine ⟨by ring, by ring, by ring⟩
+  rw [hdec] at hpl
+  simp only [List.cons.injEq, and_true] at hpl
+  obtain ⟨e0', e1', e2', e3'⟩ := hpl
+  have e0 : x = X * ex.1 + Y * ey.1 + c1 * W := e0'
+  have e1 : y = X * ex.2.1 + Y * ey.2.1 + c2 * W := e1'
+  have e2 : z = X * ex.2.2 + Y * ey.2.2 + c3 * W := e2'
+  have e3 : w = W := e3'
+  -- n in terms of the angles
+  obtain ⟨hez, _, _⟩ := C13_placement nx ny nz ρ N ct st cp sp hρ hNN hN hθ hθ1 hcp hsp
+  simp only [rotYPt_cons, rotZPt_cons, List.cons.injEq, and_true] at hez
+  obtain ⟨z1, z2, z3⟩ := hez
+  have hnx : nx = N * (sp * ct) := by
+    have : nx = N * (nx / N) := by field_simp
+    rw [this, ← z1]; ring
+  have hny : ny = N * (sp * st) := by
+    have : ny = N * (ny / N) := by field_simp
+    rw [this, ← z2]; ring
+  have hnz : nz = N * cp := by rw [← hcp]; ring
+  have o1 : ex.1 ^ 2 + ex.2.1 ^ 2 + ex.2.2 ^ 2 = 1 := by
+    simp only [ex]
+    linear_combination (ca ^ 2 * cp ^ 2 + sa ^ 2) * hθ1 + ca ^ 2 * hp1 + ha
+  have o2 : ey.1 ^ 2 + ey.2.1 ^ 2 + ey.2.2 ^ 2 = 1 := by
+    simp only [ey]
+    linear_combination (sa ^ 2 * cp ^ 2 + ca ^ 2) * hθ1 + sa ^ 2 * hp1 + ha
+  have o3 : ex.1 * ey.1 + ex.2.1 * ey.2.1 + ex.2.2 * ey.2.2 = 0 := by
+    simp only [ex, ey]
+    linear_combination (-(ca * sa * cp ^ 2) + ca * sa) * hθ1 + (-(ca * sa)) * hp1
+  have o4 : ex.1 * nx + ex.2.1 * ny + ex.2.2 * nz = 0 := by
+    simp only [ex]; rw [hnx, hny, hnz]
+    linear_combination (N * ca * cp * sp) * hθ1
+  have o5 : ey.1 * nx + ey.2.1 * ny + ey.2.2 * nz = 0 := by
+    simp only [ey]; rw [hnx, hny, hnz]
+    linear_combination (-(N * sa * cp * sp)) * hθ1
+  refine ⟨e3, e0, e1, e2, ⟨o1, o2, o3, o4, o5⟩, ?_, ?_⟩
+  · intro r hcone hW
+    have hx : x / w - c1 = (X * ex.1 + Y * ey.1) / W := by rw [e0, e3]; field_simp; ring
+    have hy : y / w - c2 = (X * ex.2.1 + Y * ey.2.1) / W := by rw [e1, e3]; field_simp; ring
+    have hz : z / w - c3 = (X * ex.2.2 + Y * ey.2.2) / W := by rw [e2, e3]; field_simp; ring
+    rw [hx, hy, hz]
+    constructor
+    · field_simp
+      linear_combination X ^ 2 * o1 + Y ^ 2 * o2 + 2 * X * Y * o3 + hcone
+    · field_simp
+      linear_combination X * o4 + Y * o5
+  · intro r1 r2 hell hW hr1 hr2
+    have hx : x / w - c1 = (X * ex.1 + Y * ey.1) / W := by rw [e0, e3]; field_simp; ring
+    have hy : y / w - c2 = (X * ex.2.1 + Y * ey.2.1) / W := by rw [e1, e3]; field_simp; ring
+    have hz : z / w - c3 = (X * ex.2.2 + Y * ey.2.2) / W := by rw [e2, e3]; field_simp; ring
+    rw [hx, hy, hz]
+    have hu : (X * ex.1 + Y * ey.1) / W * ex.1 + (X * ex.2.1 + Y * ey.2.1) / W * ex.2.1
+        + (X * ex.2.2 + Y * ey.2.2) / W * ex.2.2 = X / W := by
+      field_simp
+      linear_combination X * o1 + Y * o3
+    have hv : (X * ex.1 + Y * ey.1) / W * ey.1 + (X * ex.2.1 + Y * ey.2.1) / W * ey.2.1
+        + (X * ex.2.2 + Y * ey.2.2) / W * ey.2.2 = Y / W := by
+      field_simp
+      linear_combination X * o3 + Y * o2
+    rw [hu, hv]
+    constructor
+    · have : (X / W / r1) ^ 2 + (Y / W / r2) ^ 2 = ((X / r1) ^ 2 + (Y / r2) ^ 2) / W ^ 2 := by
+        field_simp
+      rw [this, hell]; field_simp
+    · field_simp
+      linear_combination X * o4 + Y * o5
+
+/-- **`revolve`: every evaluated point.**  Net `stackLast (revolveRows prof arc)` (the model of
+`surface_factory.revolve` about the z-axis, `revolve_aux0`; `volume_factory.revolve` has the same
+rows for the sweep net `(cos j·dt, sin j·dt, weight_j)`, part 3), arbitrary weights `β` on the
+profile's control points (curve: basis values; surface: products) and `γ` on the sweep's:
+1. the homogeneous point is `(PX·A − PY·B, PX·B + PY·A, PZ·Wt, PH·Wt)` with `(PX,PY,PZ,PH)` the
+   evaluated profile point and `(A, B, Wt)` the evaluated sweep point;
+2. if the sweep point is on its cone `A² + B² = Wt²` (`C13_eval_arc`, `C13_eval_circle_p2C0` with
+   `r = 1`) the Cartesian point is the generator point rotated about the z-axis by the angle
+   `(A/Wt, B/Wt)` (a unit vector): its distance to the axis and its height are those of the
+   generator point, for every sweep parameter. -/
+theorem C13_eval_revolve (prof arc : List (Pt K)) (n m : ℕ) (β γ : ℕ → K)
+    (hn : prof.length = n) (hm : arc.length = m) (hm0 : 0 < m) (hp : Is4 prof n) (ha : Is3 arc m) :
+    let PX := wS n β (comp prof 0)
+    let PY := wS n β (comp prof 1)
+    let PZ := wS n β (comp prof 2)
+    let PH := wS n β (comp prof 3)
+    let A := wS m γ (comp arc 0)
+    let B := wS m γ (comp arc 1)
+    let Wt := wS m γ (comp arc 2)
+    let net := stackLast (revolveRows prof arc)
+    let xh := wS2 n m β γ (fun k j => comp net 0 (k * m + j))
+    let yh := wS2 n m β γ (fun k j => comp net 1 (k * m + j))
+    let zh := wS2 n m β γ (fun k j => comp net 2 (k * m + j))
+    let wh := wS2 n m β γ (fun k j => comp net 3 (k * m + j))
+    (xh = PX * A - PY * B ∧ yh = PX * B + PY * A ∧ zh = PZ * Wt ∧ wh = PH * Wt) ∧
+    (A ^ 2 + B ^ 2 = Wt ^ 2 → Wt ≠ 0 → PH ≠ 0 →
+      (xh / wh) ^ 2 + (yh / wh) ^ 2 = (PX / PH) ^ 2 + (PY / PH) ^ 2 ∧ zh / wh = PZ / PH ∧
+      xh / wh = (PX / PH) * (A / Wt) - (PY / PH) * (B / Wt) ∧
+      yh / wh = (PX / PH) * (B / Wt) + (PY / PH) * (A / Wt) ∧ (A / Wt) ^ 2 + (B / Wt) ^ 2 = 1) ∧
+    (∀ (cd sd : K) (ws : List K),
+      revolveRowsStep prof cd sd ws = revolveRows prof ((List.range ws.length).map
+          (fun i => [(angleIter cd sd i).1, (angleIter cd sd i).2, ws.getD i 1]))) := by
+  intro PX PY PZ PH A B Wt net xh yh zh wh
+  obtain ⟨e0, e1, e2, e3⟩ := wS2_revolve prof arc n m β γ hn hm hm0 hp ha
+  have e0' : xh = PX * A - PY * B := e0
+  have e1' : yh = PX * B + PY * A := e1
+  have e2' : zh = PZ * Wt := e2
+  have e3' : wh = PH * Wt := e3
+  refine ⟨⟨e0', e1', e2', e3'⟩, ?_, fun cd sd ws => revolveRowsStep_eq prof cd sd ws⟩
+  intro harc hW hH
+  rw [e0', e1', e2', e3']
+  refine ⟨?_, ?_, ?_, ?_, ?_⟩
+  · field_simp
+    linear_combination (PX ^ 2 + PY ^ 2) * harc
+  · field_simp
+  · field_simp
+  · field_simp
+  · field_simp; linear_combination harc
+
+
+/-- **Sphere and torus (surface and solid): implicit equations at every parameter.**  A revolved
+point of a generator in the `xz`-plane (`PY = 0`; `sphere`: half circle about the origin, `torus`:
+circle about `(R, 0, 0)`), with the sweep point on its cone:
+1. generator on `PX² + PZ² = r²PH²`  ⇒  `x² + y² + z² = r²`;
+2. generator on `(PX − R·PH)² + PZ² = r²PH²`  ⇒  `(x² + y² + z² + R² − r²)² = 4R²(x² + y²)`;
+3. `x² + y² = (PX/PH)²`, `z = PZ/PH`;
+4. solid torus: a generator point inside the tube circle with `PX/PH ≥ 0` gives
+   `(ρ − R)² + z² ≤ r²` for `ρ = √(x²+y²)` (`ρ ≥ 0`, `ρ² = x² + y²`). -/
+theorem C13_eval_sphere_torus (PX PZ PH A B Wt r R : K) (harc : A ^ 2 + B ^ 2 = Wt ^ 2)
+    (hW : Wt ≠ 0) (hH : PH ≠ 0) :
+    let x := (PX * A - 0 * B) / (PH * Wt)
+    let y := (PX * B + 0 * A) / (PH * Wt)
+    let z := (PZ * Wt) / (PH * Wt)
+    (PX ^ 2 + PZ ^ 2 = r ^ 2 * PH ^ 2 → x ^ 2 + y ^ 2 + z ^ 2 = r ^ 2) ∧
+    ((PX - R * PH) ^ 2 + PZ ^ 2 = r ^ 2 * PH ^ 2 →
+      (x ^ 2 + y ^ 2 + z ^ 2 + R ^ 2 - r ^ 2) ^ 2 = 4 * R ^ 2 * (x ^ 2 + y ^ 2)) ∧
+    (x ^ 2 + y ^ 2 = (PX / PH) ^ 2 ∧ z = PZ / PH) ∧
+    ((PX / PH - R) ^ 2 + (PZ / PH) ^ 2 ≤ r ^ 2 → 0 ≤ PX / PH →
+      ∃ ρ, 0 ≤ ρ ∧ ρ ^ 2 = x ^ 2 + y ^ 2 ∧ (ρ - R) ^ 2 + z ^ 2 ≤ r ^ 2) := by
+  intro x y z
+  have hxy : x ^ 2 + y ^ 2 = (PX / PH) ^ 2 := by
+    simp only [x, y]; field_simp; linear_combination PX ^ 2 * harc
+  have hz : z = PZ / PH := by simp only [z]; field_simp
+  refine ⟨?_, ?_, ⟨hxy, hz⟩, ?_⟩
+  · intro h
+    rw [hxy, hz]; field_simp; linear_combination h
+  · intro h
+    rw [hxy, hz]
+    have h' : (PX / PH - R) ^ 2 + (PZ / PH) ^ 2 = r ^ 2 := by field_simp; linear_combination h
+    have : (PX / PH) ^ 2 + (PZ / PH) ^ 2 + R ^ 2 - r ^ 2 = 2 * R * (PX / PH) := by linear_combination h'
+    rw [this]; ring
+  · intro h h0
+    exact ⟨PX / PH, h0, hxy.symm, by rw [hz]; exact h⟩
+
+
+/-- **`extrude` (surface and volume) and cylinders at every parameter.**  Net
+`stackLast [base, base + amount]` (`C13_extrude_section`), arbitrary weights `β` on the base net,
+sweep parameter `v` with the two linear B-spline values `1 − v`, `v` (part 3):
+1.–2. the evaluated point is the evaluated base point plus `v·amount`;
+4. cylinder: if the base point is on the circle of radius `r` about `c` in the plane orthogonal to
+   the amount, the extruded point is at distance `r` from the axis point `c + v·amount` and its
+   height along the amount is `v·|amount|²`. -/
+theorem C13_eval_extrude (base : List (Pt K)) (n : ℕ) (β : ℕ → K) (a b c v : K)
+    (hn : base.length = n) (hp : Is4 base n) :
+    let net := stackLast [base, base.map (translatePt true 3 [a, b, c])]
+    let γ : ℕ → K := fun j => if j = 0 then 1 - v else v
+    let X := wS n β (comp base 0)
+    let Y := wS n β (comp base 1)
+    let Z := wS n β (comp base 2)
+    let H := wS n β (comp base 3)
+    let xh := wS2 n 2 β γ (fun k j => comp net 0 (k * 2 + j))
+    let yh := wS2 n 2 β γ (fun k j => comp net 1 (k * 2 + j))
+    let zh := wS2 n 2 β γ (fun k j => comp net 2 (k * 2 + j))
+    let wh := wS2 n 2 β γ (fun k j => comp net 3 (k * 2 + j))
+    (xh = X + v * a * H ∧ yh = Y + v * b * H ∧ zh = Z + v * c * H ∧ wh = H) ∧
+    (H ≠ 0 → xh / wh = X / H + v * a ∧ yh / wh = Y / H + v * b ∧ zh / wh = Z / H + v * c) ∧
+    -- the weights `γ` are the values of the two linear B-splines of `BSplineBasis(2)` at `v`
+    (∀ s : Side, s.mem 0 1 v →
+      B s (defaultBasis (K := K) 2).kn 1 0 v = γ 0 ∧ B s (defaultBasis (K := K) 2).kn 1 1 v = γ 1) ∧
+    -- cylinder: a base point on the circle (centre `(p, q, w)`, plane ⟂ `(a,b,c)`) stays at distance
+    -- `r` from the axis and rises by `v·|amount|²` along it
+    (∀ p q w r x y z : K, (x - p) ^ 2 + (y - q) ^ 2 + (z - w) ^ 2 = r ^ 2 →
+      (x - p) * a + (y - q) * b + (z - w) * c = 0 →
+      ((x + v * a) - p - v * a) ^ 2 + ((y + v * b) - q - v * b) ^ 2 + ((z + v * c) - w - v * c) ^ 2 = r ^ 2 ∧
+      ((x + v * a) - p) * a + ((y + v * b) - q) * b + ((z + v * c) - w) * c = v * (a ^ 2 + b ^ 2 + c ^ 2)) := by
+  intro net γ X Y Z H xh yh zh wh
+  obtain ⟨e, e3⟩ := wS2_extrude_rational base n β γ a b c hn hp
+  have g0 : γ 0 = 1 - v := by simp [γ]
+  have g1 : γ 1 = v := by simp [γ]
+  have ex : xh = X + v * a * H := by
+    have := e 0 (by omega); simp only [List.getD_cons_zero] at this
+    show wS2 n 2 β γ _ = _
+    rw [this, g0, g1]; ring
+  have ey : yh = Y + v * b * H := by
+    have := e 1 (by omega); simp only [List.getD_cons_succ, List.getD_cons_zero] at this
+    show wS2 n 2 β γ _ = _
+    rw [this, g0, g1]; ring
+  have ez : zh = Z + v * c * H := by
+    have := e 2 (by omega); simp only [List.getD_cons_succ, List.getD_cons_zero] at this
+    show wS2 n 2 β γ _ = _
+    rw [this, g0, g1]; ring
+  have ew : wh = H := by
+    show wS2 n 2 β γ _ = _
+    rw [e3, g0, g1]; ring
+  refine ⟨⟨ex, ey, ez, ew⟩, ?_, ?_, ?_⟩
+  · intro hH
+    rw [ex, ey, ez, ew]
+    refine ⟨by field_simp, by field_simp, by field_simp⟩
+  · intro s hs
+    have hτ : Monotone (defaultBasis (K := K) 2).kn := by
+      apply monotone_nat_of_le_succ
+      intro i
+      rcases i with _ | _ | _ | i <;> simp [defaultBasis, Basis.kn]
+    have k1 : (defaultBasis (K := K) 2).kn (0 + 1) = 0 := by simp [defaultBasis, Basis.kn]
+    have k2 : (defaultBasis (K := K) 2).kn (0 + 2) = 1 := by simp [defaultBasis, Basis.kn]
+    obtain ⟨b0, b1⟩ := B1_linear s _ hτ 0 0 1 v one_pos k1 k2 hs
+    rw [g0, g1]
+    constructor
+    · rw [b0]; ring
+    · rw [b1]; ring
+  · intro p q w r x y z hr hpl
+    constructor
+    · rw [← hr]; ring
+    · linear_combination hpl
+
+/-- **Discs at every parameter.**
+1. `type='radial'`: the evaluated point is `c + γ1·(C − c)` for the boundary-circle point `C`
+   (`γ0, γ1` the two linear basis values in the radial direction): it lies in the plane, at distance
+   `γ1·r ≤ r` from the centre (on the circle for `γ1 = 1`).
+2. `type='square'`: for the literal biquadratic rational patch (`w² = 1/2`), every `(u, v) ∈ [0,1]²`:
+   `W > 0`, `X² + Y² ≤ r²W²` (inside the disc), with equality on the four boundary curves
+   (`r²W² − X² − Y² = r²·4u(1−u)·4v(1−v)·(4w + 3 + (2u−1)²(2v−1)²(3 − 4w))/8`). -/
+theorem C13_eval_disc :
+    -- radial: the evaluated point is `c + γ1·(C − c)` for the circle point `C` and `γ1 = u/r ∈ [0,1]`
+    (∀ γ0 γ1 p q s W x y z r nx ny nz : K, γ0 + γ1 = 1 → W ≠ 0 → 0 ≤ γ1 → γ1 ≤ 1 →
+      (x / W - p) ^ 2 + (y / W - q) ^ 2 + (z / W - s) ^ 2 = r ^ 2 →
+      (x / W - p) * nx + (y / W - q) * ny + (z / W - s) * nz = 0 →
+      ((γ0 * (p * W) + γ1 * x) / (γ0 * W + γ1 * W) - p) ^ 2
+        + ((γ0 * (q * W) + γ1 * y) / (γ0 * W + γ1 * W) - q) ^ 2
+        + ((γ0 * (s * W) + γ1 * z) / (γ0 * W + γ1 * W) - s) ^ 2 = γ1 ^ 2 * r ^ 2 ∧
+      γ1 ^ 2 * r ^ 2 ≤ r ^ 2 ∧
+      ((γ0 * (p * W) + γ1 * x) / (γ0 * W + γ1 * W) - p) * nx
+        + ((γ0 * (q * W) + γ1 * y) / (γ0 * W + γ1 * W) - q) * ny
+        + ((γ0 * (s * W) + γ1 * z) / (γ0 * W + γ1 * W) - s) * nz = 0) ∧
+    -- square: the biquadratic rational patch with the literal 3×3 net
+    (∀ r w u v : K, w ^ 2 = 1 / 2 → 0 < w → 0 ≤ u → u ≤ 1 → 0 ≤ v → v ≤ 1 →
+      let X := bern2 (bern2 (-r * w) 0 (r * w) u) (bern2 (-r) 0 r u) (bern2 (-r * w) 0 (r * w) u) v
+      let Y := bern2 (bern2 (-r * w) (-r) (-r * w) u) (bern2 0 0 0 u) (bern2 (r * w) r (r * w) u) v
+      let W := bern2 (bern2 1 w 1 u) (bern2 w 1 w u) (bern2 1 w 1 u) v
+      0 < W ∧ X ^ 2 + Y ^ 2 ≤ r ^ 2 * W ^ 2 ∧
+      (u = 0 ∨ u = 1 ∨ v = 0 ∨ v = 1 → X ^ 2 + Y ^ 2 = r ^ 2 * W ^ 2)) := by
+  constructor
+  · intro γ0 γ1 p q s W x y z r nx ny nz hγ hW h0 h1 hr hpl
+    have hden : γ0 * W + γ1 * W = W := by rw [← add_mul, hγ, one_mul]
+    have e : ∀ a t : K, (γ0 * (a * W) + γ1 * t) / (γ0 * W + γ1 * W) - a = γ1 * (t / W - a) := by
+      intro a t
+      rw [hden]
+      have : γ0 = 1 - γ1 := by linarith
+      rw [this]; field_simp; ring
+    rw [e p x, e q y, e s z]
+    refine ⟨?_, ?_, ?_⟩
+    · rw [← hr]; ring
+    · have : γ1 ^ 2 ≤ 1 := by nlinarith
+      nlinarith [sq_nonneg r]
+    · linear_combination γ1 * hpl
+  · intro r w u v hw hw0 hu0 hu1 hv0 hv1 X Y W
+    have hw34 : w < 3 / 4 := by
+      by_contra hcon
+      push Not at hcon
+      nlinarith
+    have key : r ^ 2 * W ^ 2 - X ^ 2 - Y ^ 2
+        = r ^ 2 * (4 * u * (1 - u)) * (4 * v * (1 - v))
+            * (4 * w + 3 + (2 * u - 1) ^ 2 * (2 * v - 1) ^ 2 * (3 - 4 * w)) / 8 := by
+      simp only [X, Y, W, bern2]
+      linear_combination (2 * r ^ 2 * (32 * u ^ 4 * v ^ 4 - 64 * u ^ 4 * v ^ 3 + 40 * u ^ 4 * v ^ 2 - 8 * u ^ 4 * v
+        - 64 * u ^ 3 * v ^ 4 + 128 * u ^ 3 * v ^ 3 - 80 * u ^ 3 * v ^ 2 + 16 * u ^ 3 * v + 40 * u ^ 2 * v ^ 4
+        - 80 * u ^ 2 * v ^ 3 + 36 * u ^ 2 * v ^ 2 + 4 * u ^ 2 * v - 4 * u ^ 2 - 8 * u * v ^ 4 + 16 * u * v ^ 3
+        + 4 * u * v ^ 2 - 12 * u * v + 4 * u - 4 * v ^ 2 + 4 * v - 1)) * hw
+    have h1u : 0 ≤ 1 - u := by linarith
+    have h1v : 0 ≤ 1 - v := by linarith
+    refine ⟨?_, ?_, ?_⟩
+    · have a1 : 0 < bern2 1 w 1 u := arc_weight_pos w u hw0 hu0 hu1
+      have a2 : 0 < bern2 w 1 w u := by
+        unfold bern2
+        have e1 : 0 ≤ (1 - u) ^ 2 * w := by positivity
+        have e2 : 0 ≤ u ^ 2 * w := by positivity
+        have e3 : 0 ≤ 2 * u * (1 - u) * 1 := by positivity
+        rcases le_or_gt u (1 / 2) with h | h
+        · have : 0 < (1 - u) ^ 2 * w := by
+            have : 0 < 1 - u := by linarith
+            positivity
+          linarith
+        · have : 0 < u ^ 2 * w := by
+            have : 0 < u := by linarith
+            positivity
+          linarith
+      show 0 < bern2 (bern2 1 w 1 u) (bern2 w 1 w u) (bern2 1 w 1 u) v
+      unfold bern2 at a1 a2 ⊢
+      have e1 : 0 ≤ (1 - v) ^ 2 := sq_nonneg _
+      have e2 : 0 ≤ v ^ 2 := sq_nonneg _
+      have e3 : 0 ≤ 2 * v * (1 - v) := by positivity
+      rcases le_or_gt v (1 / 2) with h | h
+      · have : 0 < (1 - v) ^ 2 := by
+          have : 0 < 1 - v := by linarith
+          positivity
+        nlinarith [mul_nonneg e3 (le_of_lt a2), mul_nonneg e2 (le_of_lt a1), mul_pos this a1]
+      · have : 0 < v ^ 2 := by
+          have : 0 < v := by linarith
+          positivity
+        nlinarith [mul_nonneg e3 (le_of_lt a2), mul_nonneg e1 (le_of_lt a1), mul_pos this a1]
+    · have hnn : 0 ≤ r ^ 2 * (4 * u * (1 - u)) * (4 * v * (1 - v))
+          * (4 * w + 3 + (2 * u - 1) ^ 2 * (2 * v - 1) ^ 2 * (3 - 4 * w)) / 8 := by
+        have : 0 ≤ 3 - 4 * w := by linarith
+        positivity
+      linarith
+    · intro hb
+      have : r ^ 2 * (4 * u * (1 - u)) * (4 * v * (1 - v))
+          * (4 * w + 3 + (2 * u - 1) ^ 2 * (2 * v - 1) ^ 2 * (3 - 4 * w)) / 8 = 0 := by
+        rcases hb with rfl | rfl | rfl | rfl <;> ring
+      linarith
+
+/-- **`circle_segment` through `Obj.evaluate`.**  For the (unplaced) arc object of the factory
+converted to the tensor object, `SplineObject.evaluate` at admissible parameters returns points on
+the circle of radius `r` about the origin. -/
+theorem C13_eval_arc_evaluate [FloorRing K] (r cd sd theta : K) (n : ℕ) (hn : 0 < n) (hθ : 0 < theta)
+    (hd : cd ^ 2 + sd ^ 2 = 1) (hcd : 0 < cd) {tol : K} (htol : 0 < tol) {us : List K}
+    (hus : ∀ u ∈ us, ({ order := 3, knots := (arcKnots theta n).toArray, periodic := -1 } : Basis K).Admissible tol u) :
+    ∃ res, (FileIO.ofFac (arcCurve r cd sd theta n)).evaluate tol [us] true = .ok res ∧
+      res.shape = [us.length, 2] ∧
+      ∀ i, i < us.length → res.get (i * 2 + 0) ^ 2 + res.get (i * 2 + 1) ^ 2 = r ^ 2 := by
+  set b : Basis K := { order := 3, knots := (arcKnots theta n).toArray, periodic := -1 } with hb
+  have hv := arcBasis_valid theta n hn hθ
+  rw [← hb] at hv
+  have hsize : b.knots.size = 2 * n + 4 := by simp [hb, arcKnots, arcInts_eq]
+  have hnf : b.numFunctions = 2 * n + 1 := by
+    unfold Basis.numFunctions; rw [hsize]; simp [hb]
+  have hlen : (arcCurve r cd sd theta n).cps.length = 2 * n + 1 := by
+    simp [arcCurve, curveOf, arcNet_length]
+  have h3 : ∀ p ∈ (arcCurve r cd sd theta n).cps, p.length = 3 := by
+    intro p hp
+    simp only [arcCurve, curveOf, arcNet, List.mem_map] at hp
+    obtain ⟨i, _, rfl⟩ := hp
+    simp
+  have hget : ∀ j c, j < 2 * n + 1 → c < 3 →
+      (FileIO.ofFac (arcCurve r cd sd theta n)).cps.get (j * 3 + c) = netComp (arcNet r cd sd n) c j := by
+    intro j c hj hc
+    rw [ofFac_get _ 3 (by omega) h3 j c (by rw [hlen]; exact hj) hc]
+    simp [netComp, arcCurve, curveOf, arcNet_length, Nat.mod_eq_of_lt hj]
+  obtain ⟨res, h1, h2, _, h4⟩ := Obj.evaluate1_spec_rational (o := FileIO.ofFac (arcCurve r cd sd theta n))
+    (b1 := b) (by simp [FileIO.ofFac, arcCurve, curveOf, hb]) hv (dim := 2)
+    (by rw [hnf]; simp [FileIO.ofFac, arcCurve, curveOf, arcNet_length, Fac.Obj.ncomp])
+    (by simp [FileIO.ofFac, arcCurve, curveOf])
+    (by
+      intro j hj
+      rw [hnf] at hj
+      rw [hget j 2 hj (by omega), (netComp_arc r cd sd n j hj).2.2]
+      unfold arcW; split <;> [exact hcd; exact one_pos])
+    htol hus
+  refine ⟨res, h1, h2, ?_⟩
+  intro i hi
+  obtain ⟨hpos, hq⟩ := h4 i hi
+  set u := us.getD i 0 with hu
+  have hadm := hus u (getD_mem_of_lt us hi 0)
+  have hsum : ∀ c, c < 3 → (∑ j ∈ Finset.range b.numFunctions,
+      b.specRow u j * (FileIO.ofFac (arcCurve r cd sd theta n)).cps.get (j * (2 + 1) + c))
+      = splineVal (effSide b u true) b.kn 2 (2 * n + 1) (netComp (arcNet r cd sd n) c) u := by
+    intro c hc
+    rw [hnf]
+    unfold splineVal
+    apply Finset.sum_congr rfl
+    intro j hj
+    rw [Basis.specRow_nonperiodic (by simp [hb]), hget j c (Finset.mem_range.mp hj) hc, mul_comm]
+    simp [hb]
+  -- the effective side puts `u` into `[0, θ)` resp. `(0, θ]`
+  have hstart : b.start = 0 := by
+    unfold Basis.start; rw [hb]; simp only; rw [← hb, kn_arc theta n (3 - 1) (by omega)]; simp [arcKnotFn]
+  have hstop : b.stop = theta := by
+    unfold Basis.stop; rw [hsize, hb]; simp only; rw [← hb, kn_arc theta n (2 * n + 4 - 3) (by omega)]
+    have : min n ((2 * n + 4 - 3 - 1) / 2) = n := by omega
+    have hn' : (n : K) ≠ 0 := by exact_mod_cast (Nat.pos_iff_ne_zero.mp hn)
+    unfold arcKnotFn; rw [this]; field_simp
+  have hdom := hadm.2.1 (by simp [hb])
+  rw [hstart, hstop] at hdom
+  have hmem : (effSide b u true).mem 0 theta u := by
+    unfold effSide
+    rw [hstop]
+    by_cases hut : u = theta
+    · rw [if_pos hut, hut]; exact ⟨hθ, le_refl _⟩
+    · rw [if_neg hut]; exact ⟨hdom.1, lt_of_le_of_ne hdom.2 hut⟩
+  obtain ⟨hW, _, hcirc⟩ := C13_eval_arc r cd sd theta n hn hθ hd hcd (effSide b u true) u hmem
+  rw [hq 0 (by omega), hq 1 (by omega), hsum 0 (by omega), hsum 1 (by omega), hsum 2 (by omega)]
+  exact hcirc
+
